@@ -12,7 +12,14 @@ def has_optional(p):
     if isinstance(p, list): return any(has_optional(v) for v in p)
     return False
 
+def has_varkey(p):
+    if isinstance(p, dict): return any(k.startswith("?") or has_varkey(v) for k, v in p.items())
+    if isinstance(p, list): return any(has_varkey(v) for v in p)
+    return False
+
 KNOWN = [
+    # property variable as key: the value below it is a term of the pattern, but values under the keys 'rule' and 'x!' of a fact are not indexed
+    ("C02-property-variable-vs-unindexed-key", lambda c, k, op, mo, io: op["op"] == "search" and has_varkey(op["pattern"])),
     # optional variable: the key of an optional pattern entry is still used as a term by IndexedState
     ("C02-optional-variable-term", lambda c, k, op, mo, io: op["op"] == "search" and has_optional(op["pattern"])),
 ]
